@@ -392,3 +392,20 @@ pub fn emit_partial(path: &str, out: &CheckOutput) {
     });
     std::fs::write(path, serde_json::to_string(&v).unwrap()).expect("write partial");
 }
+
+/// merge the output another profile's binary wrote with --emit
+pub fn merge_partial(path: &std::path::Path, out: &mut CheckOutput) {
+    let s = std::fs::read_to_string(path).expect("partial output exists");
+    let v: Value = serde_json::from_str(&s).expect("partial output parses");
+    let g = |k: &str| v[k].as_u64().unwrap_or(0);
+    out.stats.states += g("states");
+    out.stats.transitions += g("transitions");
+    out.stats.traces += g("traces");
+    out.stats.configs += g("configs");
+    out.stats.oracle_evals += g("oracle_evals");
+    out.stats.skipped_configs += g("skipped_configs");
+    out.stats.bump(&format!("states_under_{}", v["profile"].as_str().unwrap_or("other")), g("states"));
+    let viols: Vec<Violation> = serde_json::from_value(v["violations"].clone()).expect("violations");
+    out.violations.extend(viols);
+    let _ = std::fs::remove_file(path);
+}
